@@ -64,6 +64,8 @@ def plan(tier, seed):
     aa_keys = ('pe', 'two', 'surplus', 'sq2', 'dir', 'lab', 'annot', 'ter') if q else tuple(sorted(BF.AA))
     cg_keys = ('xy', 'dir', 'sq', 'surplus', 'w') if q else tuple(sorted(BF.CG))
     for t in RS.plan(tier, seed, chunk=8):
+        if t['space'].endswith('4'):
+            continue        # the 4-node families are covered by C02 / C03; here every case costs ~7 resolutions
         t = dict(t)
         t['kind'] = 'config'
         if t['space'] == 'aa-shapes':
